@@ -31,6 +31,7 @@ type gtCert struct {
 	notBefore  time.Time
 	notAfter   time.Time
 	bcValid    bool
+	oldVersion int // 1 or 2: re-issued as an X.509 v1 / v2 certificate (no extensions at all)
 	isCA       bool
 	pathLen    int // -1 unset
 	keyUsage   gx509.KeyUsage
@@ -396,6 +397,14 @@ func runTopology(c *Ctx, ti int, r *mon.RNG) {
 		if err != nil {
 			return false
 		}
+		if g.oldVersion > 0 {
+			fd := c10ReissueOldVersion(der, keyOf[signKey], g.oldVersion, r)
+			if fd == nil {
+				return false
+			}
+			der = fd
+			rep.Count(fmt.Sprintf("certificates_reissued_as_x509_v%d", g.oldVersion), 1)
+		}
 		if g.foreign > 0 {
 			if fd := c10Reissue(der, keyOf[signKey], g.foreign, r); fd != nil {
 				der = fd
@@ -583,6 +592,23 @@ func runTopology(c *Ctx, ti int, r *mon.RNG) {
 			ents = append(ents, g)
 		}
 	}
+	// every fifth topology: an intermediate as an older implementation would have written it — X.509 v1 or v2, no
+	// extensions, hence no statement that it is a CA — with the first leaf under it. Not a permitted issuer.
+	var oldInter *gtCert
+	if ti%5 == 3 {
+		par := ents[0]
+		g := mkCA("inter", fmt.Sprintf("InterOld%d", ti), newKey())
+		g.oldVersion = 1 + (ti/5)%2
+		g.bcValid, g.isCA, g.pathLen, g.keyUsage, g.eku, g.ekuUnknown, g.permitted, g.extraExt, g.critExt, g.foreign = false, false, -1, 0, nil, false, nil, false, false, 0
+		g.issuerName, g.signerKey = par.subject, par.keyID
+		if issue(g, par) {
+			g.inInters = true
+			g.id = len(all)
+			all = append(all, g)
+			oldInter = g
+			rep.Count("topologies_with_a_v1_or_v2_intermediate", 1)
+		}
+	}
 	// a loop: re-issue an earlier CA entity under a later one
 	if len(ents) > 2 && r.Intn(3) == 0 {
 		a, b := ents[r.Intn(len(ents))], ents[len(ents)-1]
@@ -629,6 +655,10 @@ func runTopology(c *Ctx, ti int, r *mon.RNG) {
 			g.dns = []string{fmt.Sprintf("leaf%d.example.com", i), "example.com"}
 			g.issuerName, g.signerKey = ents[0].subject, ents[0].keyID
 			par = ents[0]
+		}
+		if oldInter != nil && i == 0 && !dotted {
+			g.issuerName, g.signerKey = oldInter.subject, oldInter.keyID
+			par = oldInter
 		}
 		if r.Intn(3) == 0 {
 			g.ips = []net.IP{net.IPv4(10, 0, 0, byte(1+i)).To4(), net.ParseIP("2001:db8::7")}
